@@ -97,17 +97,24 @@ def run_case(case):
     sysm = py4hw.HWSystem()
     wires = []
     drivers = []
+    same_names = bool(case.get('same_names'))
     for i, s in enumerate(sigs):
-        w = sysm.wire('s{}'.format(i), s['w'])
+        if same_names:
+            # every signal lives in a block of its own and carries the same local name (names are per block)
+            home = _Probe(sysm, 'blk{}'.format(i))
+            w = home.wire('sig', s['w'])
+        else:
+            home = sysm
+            w = sysm.wire('s{}'.format(i), s['w'])
         wires.append(w)
         if s['kind'] == 'seq':
-            drivers.append(py4hw.Sequence(sysm, 'seq{}'.format(i), list(s['values']), w))
+            drivers.append(py4hw.Sequence(home, 'seq{}'.format(i), list(s['values']), w))
         elif s['kind'] == 'poke':
             drivers.append(None)
         else:
             args = [wires[j] for j in s['args']]
             ctor = {'not': py4hw.Not, 'and': py4hw.And2, 'or': py4hw.Or2, 'sub': py4hw.Sub, 'buf': py4hw.Buf}[s['op']]
-            drivers.append(ctor(sysm, 'op{}'.format(i), *args, w))
+            drivers.append(ctor(home, 'op{}'.format(i), *args, w))
     # a reader for every signal, so that an InPort alias exists
     readers = []
     for i, w in enumerate(wires):
@@ -122,6 +129,8 @@ def run_case(case):
         else:
             drv = drivers[i]
             watch.append(drv.outPorts[0] if drv is not None else wires[i])
+    if case.get('late_recorder'):
+        sysm.getSimulator()        # the simulator exists before the recorder is attached (and is refreshed afterwards)
     if case.get('wf_block'):
         # the recorder lives in a block with a clock driver object of its own (not gated), created after the sources
         blk = _Probe(sysm, 'probe')
@@ -213,6 +222,10 @@ def run_case(case):
         tags.append('rendered_mid_plan')
     if case.get('wf_block'):
         tags.append('recorder_in_own_clock_domain')
+    if same_names:
+        tags.append('watched_wires_share_a_local_name')
+    if case.get('late_recorder'):
+        tags.append('recorder_attached_after_first_getSimulator')
     return ok(rep and alias, tags, info={'cycles': ncycles})
 
 
@@ -252,7 +265,8 @@ def case_strategy():
         return st.lists(st.tuples(st.sampled_from(['wire', 'wire', 'in', 'out']), st.integers(0, n - 1)).map(list), min_size=1, max_size=6)
 
     return st.integers(1, 5).flatmap(lambda n: signals(n).flatmap(
-        lambda sg: st.fixed_dictionaries({'signals': st.just(sg), 'watch': watch(n), 'plan': plan(sg), 'wf_block': st.sampled_from([False, False, True])})))
+        lambda sg: st.fixed_dictionaries({'signals': st.just(sg), 'watch': watch(n), 'plan': plan(sg), 'wf_block': st.sampled_from([False, False, True]),
+                                          'same_names': st.sampled_from([False, False, True]), 'late_recorder': st.sampled_from([False, False, True])})))
 
 
 @st.composite
